@@ -12,7 +12,7 @@ let implode (l : char list) : string =
 let () =
   let entry = if Array.length Sys.argv > 1 then Sys.argv.(1) else "eval" in
   let _ = entry in
-  let f = Model.run_line in
+  let f = Model.run_line_all in
   (try
      while true do
        let line = input_line stdin in
